@@ -104,6 +104,15 @@ pub fn extreme_cells() -> Vec<Cell> {
     v
 }
 
+/// per family×float: (largest mean/bound ratio seen, its cell, smallest ratio, cells) — how much headroom the
+/// family constants leave (reported in the evidence as `mean_word_margin`)
+static MARGIN: Mutex<std::collections::BTreeMap<String, (f64, String, f64, u64)>> = Mutex::new(std::collections::BTreeMap::new());
+
+fn margin_json() -> Value {
+    let m = MARGIN.lock().unwrap();
+    json!(m.iter().map(|(k, v)| (k.clone(), json!({"max_mean_over_bound": (v.0 * 1000.0).round() / 1000.0, "at": v.1, "min_mean_over_bound": (v.2 * 1000.0).round() / 1000.0, "cells": v.3}))).collect::<serde_json::Map<_, _>>())
+}
+
 enum Job {
     /// m random-stream calls on a cell
     Random(Cell, u64),
@@ -247,10 +256,12 @@ pub fn run(ctx: &Ctx) {
         if stuck > 0 {
             // stuck threads cannot be joined: write the evidence and leave the process from here
             ctx.set_extra("abandoned_worker_threads", json!(stuck));
+            ctx.set_extra("mean_word_margin", margin_json());
             let code = ctx.finish(RULE, &ASSUME, false);
             std::process::exit(code);
         }
     });
+    ctx.set_extra("mean_word_margin", margin_json());
 }
 
 pub const RULE: &str = "cell = parameter set in E+ (E grids and random cells plus the integer / float extremes accepted by the constructors); (a) m random-stream calls per cell with a counting RNG: per-call budget 1e5 words, mean words/call <= the family constant (DESIGN C05 table); (b) single-word adversarial streams: every boundary-lattice word at positions 0..7, with and without a region word, per-call budget; (c) a monitor thread flags any single call that runs longer than 20 s with its thread busy on CPU (hang); non-trivial = cell adjacent to a threshold/extreme (grid or extreme cell) or adversarial word consumed";
@@ -325,6 +336,17 @@ fn worker_random(ctx: &Ctx, slot: &Slot, cell: &Cell, m: u64) {
         return;
     }
     let b = mean_bound(cell);
+    if calls >= 1000 {
+        let mut mg = MARGIN.lock().unwrap();
+        let e = mg.entry(format!("{}:{}", cell.fam.name(), ft_name(cell))).or_insert((0.0, String::new(), f64::INFINITY, 0));
+        let r = mean / b;
+        if r > e.0 {
+            e.0 = r;
+            e.1 = cell.key();
+        }
+        e.2 = e.2.min(r);
+        e.3 += 1;
+    }
     // sampling noise: the mean over >= 2e4 calls of a geometric-tailed count is well within 10 % of its expectation
     if calls >= 1000 && mean > b {
         ctx.violation(Violation {
